@@ -59,6 +59,7 @@ type Instance struct {
 	crashArmed  bool
 	crashAt     int
 	crashBefore bool
+	crashTorn   int // > 0: if the armed operation is a log append, the process dies *inside* it: the image keeps a torn tail (cut selector)
 	stateRead   bool
 	ctx         string
 }
@@ -352,7 +353,11 @@ func (c *Cluster) StopNode(id string) {
 // instant becomes the disk the next incarnation starts from.
 var downCounter atomic.Int64
 
-func (in *Instance) die(why, op, ctx string, after bool) {
+func (in *Instance) die(why, op, ctx string, after bool) { in.dieWith(why, op, ctx, after, nil, nil) }
+
+// dieWith: fix is applied to the image before it becomes the node's disk (e.g. to cut the log file inside a
+// record); inflight are the entries of the append the process died in (some of them may be in the image).
+func (in *Instance) dieWith(why, op, ctx string, after bool, fix func(img string), inflight []EntryInfo) {
 	n := in.node
 	c := n.c
 	n.downSeq.Store(downCounter.Add(1))
@@ -368,10 +373,13 @@ func (in *Instance) die(why, op, ctx string, after bool) {
 	if err := copyTree(n.dir, img); err != nil {
 		c.taint("image copy failed: " + err.Error())
 	}
+	if fix != nil {
+		fix(img)
+	}
 	in.dead.Store(true)
 	n.dir = img
 	n.crashInfo = why
-	c.rec.Add(Event{Kind: "fault", Node: n.ID, Inc: in.inc, Fault: &FaultInfo{What: "crash", Arg: why, Image: true}, Storage: &StorageInfo{Op: op, Ctx: ctx}})
+	c.rec.Add(Event{Kind: "fault", Node: n.ID, Inc: in.inc, Fault: &FaultInfo{What: "crash", Arg: why, Image: true}, Storage: &StorageInfo{Op: op, Ctx: ctx, Ents: inflight}})
 	// the zombie is stopped in the background; its directory is never read again
 	c.goTracked(func() {
 		in.raft.Stop()
@@ -389,7 +397,10 @@ func (c *Cluster) CrashNode(id string) {
 }
 
 // ArmCrash arms "crash immediately before/after the k-th storage operation from now".
-func (c *Cluster) ArmCrash(id string, k int, before bool) {
+func (c *Cluster) ArmCrash(id string, k int, before bool) { c.ArmCrashTorn(id, k, before, 0) }
+
+// ArmCrashTorn: like ArmCrash; with torn > 0 a crash that falls on a log append happens inside it.
+func (c *Cluster) ArmCrashTorn(id string, k int, before bool, torn int) {
 	n := c.Nodes[id]
 	if n == nil || !n.Running() {
 		return
@@ -399,6 +410,7 @@ func (c *Cluster) ArmCrash(id string, k int, before bool) {
 	in.crashArmed = true
 	in.crashAt = in.opCount + k
 	in.crashBefore = before
+	in.crashTorn = torn
 	in.smu.Unlock()
 }
 
